@@ -107,7 +107,7 @@ CHECKS["C06"] = dict(
         quick=[dict(mode="edges", spec="IngestGen.tla", cfg="IngestGenEdges.cfg", depth=1, name="ops"),
                dict(mode="edges", spec="IngestGen.tla", cfg="IngestGenQuick.cfg", depth=2, max=60, name="pairs")],
         thorough=[dict(mode="edges", spec="IngestGen.tla", cfg="IngestGenAll.cfg", depth=1, name="ops", timeout=900),
-                  dict(mode="edges", spec="IngestGen.tla", cfg="IngestGenEdges.cfg", depth=2, max=500, name="pairs", timeout=900)]),
+                  dict(mode="edges", spec="IngestGen.tla", cfg="IngestGenEdges.cfg", depth=2, max=400, name="pairs", timeout=900)]),
     judge=dict(spec="IngestTrace.tla", cfg="IngestTrace.cfg"),
     corrupt=_corrupt_delivery,
     selftest_scenarios=60,
@@ -124,7 +124,7 @@ CHECKS["C06"] = dict(
          "with a 3-chunk file, manifest with 2 files} x map class {honest, extra consistent, extra wrong hash, extra over-long, altered "
          "entry, root missing, child missing, over-long entry with valid prefix (2 sizes), entry shorter than a span}. quick: all "
          "single operations (two-peer requests with the first reply from a small rejected set) + 60 sampled depth-2 histories; thorough: all single operations with all "
-         "ordered reply pairs + 500 sampled depth-2 histories. distinct = distinct operation sequence; non-trivial = some payload "
+         "ordered reply pairs + 400 sampled depth-2 histories. distinct = distinct operation sequence; non-trivial = some payload "
          "reaches a hash comparison (not only empty / <8-byte replies or a map without root)",
     exhaustive=dict(quick=False, thorough=False),
     assumptions=["keccak256 collision-free, secp256k1 unforgeable on the sampled inputs",
